@@ -141,10 +141,19 @@ class Report(object):
                         len(v.case['_session']), short(v.case['_session'][-1], 160))
             h = hashlib.sha1(v.sig.encode()).hexdigest()[:10]
             path = os.path.join(OUTDIR, 'replays', '%s-%s.json' % (self.prop, h))
+            modname, fname = runner_for(self.prop, v.case)
+            unit_test = (
+                "# plain test: the recorded case (one execution, no exploration) must not show the recorded violation\n"
+                "import json, sys\nsys.path.insert(0, '/verif')\nfrom vp import common\ncommon.import_repo()\n"
+                "import importlib\nrun = getattr(importlib.import_module(%r), %r)\n"
+                "data = json.load(open(%r))\ncase = common.unbytes(data['case'])\n"
+                "for earlier in (case.pop('_session', None) or []):\n    run(earlier)      # history that has to precede it in the same process\n"
+                "found = [m for s, m in run(case)['viol'] if s == data['signature']]\n"
+                "assert not found, found[0]\n" % (modname, fname, path))
             with open(path, 'w') as fh:
                 fh.write(jdump({'property': self.prop, 'signature': v.sig, 'message': v.msg,
                                 'count': self.viol_counts[v.sig], 'case': v.case,
-                                'replay': './check %s --replay %s' % (self.prop, path)}, indent=1))
+                                'replay': './check %s --replay %s' % (self.prop, path), 'unit_test': unit_test}, indent=1))
             print('  %s: %s' % (v.sig, short(v.msg, 400)))
             print('VIOLATION property=%s replay=%s' % (self.prop, path))
         if len(unknown) > MAXV:
